@@ -15,6 +15,8 @@ p = subprocess.run(["git", "-C", "/repo", "apply", os.path.join(d, "patch.diff")
 if p.returncode != 0:
     p = subprocess.run(["git", "-C", "/repo", "apply", "-3", os.path.join(d, "patch.diff")], capture_output=True, text=True)
     if p.returncode != 0:
+        subprocess.run(["git", "-C", "/repo", "reset", "-q"])
+        subprocess.run(["git", "-C", "/repo", "checkout", "HEAD", "--", "."])
         print("apply failed", p.stderr); sys.exit(2)
 res = {}
 try:
